@@ -265,7 +265,11 @@ pub fn engine_of(prop: &str) -> Option<Box<dyn Engine>> {
         "C11" => Box::new(hist("C11", None, 300_000, 4_000_000)),
         "C12" => Box::new(hist("C12", None, 300_000, 4_000_000)),
         "C13" => Box::new(hist("C13", None, 300_000, 4_000_000)),
-        "C16" => Box::new(hist("C16", None, 300_000, 4_000_000)),
+        "C16" => Box::new(Multi {
+            prop: "C16",
+            level: "exploration",
+            parts: vec![(1, Box::new(hist("C16", None, 150_000, 2_000_000))), (1, Box::new(crate::twin::FreshEngine { quick_runs: 150_000, thorough_runs: 2_000_000 }))],
+        }),
         "C07" => Box::new(Multi {
             prop: "C07",
             level: "exploration",
